@@ -67,7 +67,8 @@ def family_cells(tier, seed):
                     ops = []
                     bases = sorted({0, (1 << w) - 1, rnd.randrange(1 << w)})
                     for base in bases:
-                        for v in sorted({0, (1 << n) - 1, rnd.randrange(1 << n)}):
+                        # also values wider than the selection and negative ones: still only the selected bits change
+                        for v in sorted({0, (1 << n) - 1, rnd.randrange(1 << n), (1 << n) + rnd.randrange(1 << n), -1 - rnd.randrange(3)}):
                             ops.append({"op": "write", "p": "x", "how": "set_val", "v": base})
                             ops.append({"op": "part_read", "p": "x", "hi": hi, "lo": lo, "bit": hi == lo and base % 2 == 0})
                             ops.append({"op": "part_write", "p": "x", "hi": hi, "lo": lo, "v": v, "bit": hi == lo and v % 2 == 0})
@@ -92,6 +93,17 @@ def family_cells(tier, seed):
                        {"op": "list", "kind": "l_clear", "p": "l"},
                        {"op": "list", "kind": "l_append", "p": "l", "vs": [ch[2]]}]
                 out.append({"id": "cells/list/w%d%s/%d" % (w, "s" if signed else "u", c), "fields": [f], "ops": ops})
+    # (7) values left by randomize(): every read path agrees, also for negative elements of signed lists
+    for w in ([2, 4, 8] if tier == "quick" else [1, 2, 3, 4, 8, 16, 32, 64]):
+        for t in range(2 if tier == "quick" else 6):
+            fields = [{"name": "s", "kind": "scalar", "w": w, "signed": True, "rand": True, "init": 0, "where": "obj"},
+                      {"name": "u", "kind": "scalar", "w": w, "signed": False, "rand": True, "init": 0, "where": "obj"},
+                      {"name": "k", "kind": "scalar", "w": w, "signed": True, "rand": False, "init": -1, "where": "obj"},
+                      {"name": "ls", "kind": "list", "w": w, "signed": True, "rand": True, "init": [0, 0, 0, 0]},
+                      {"name": "lu", "kind": "list", "w": w, "signed": False, "rand": True, "init": [0, 0, 0]}]
+            ops = [{"op": "randomize"} for _ in range(5)] + [{"op": "list", "kind": "l_setitem", "p": "ls", "i": 1, "vs": [-1]},
+                                                              {"op": "randomize"}, {"op": "randomize"}]
+            out.append({"id": "cells/rand/w%d/%d" % (w, t), "fields": fields, "ops": ops})
     # (6) enum fields
     for vals in ([0, 1, 2], [-1, 5, 7], [3, 1 << 20, -(1 << 20)]):
         f = {"name": "e", "kind": "enum", "values": vals, "rand": True, "init": vals[1]}
